@@ -4,6 +4,7 @@ import (
 	"encoding/json"
 	"fmt"
 	"os"
+	"os/exec"
 	"path/filepath"
 	"strconv"
 	"strings"
@@ -137,7 +138,26 @@ func RunC19(tier string) int {
 		return m
 	}
 	lad, chn := mk("ladder", false), mk("chain", true)
-	for _, args := range [][]string{{"check"}, {"deps", "-t", "//:n0059"}, {"rdeps", "-t", "//:n0000"}, {"build"}, {"list", "//..."}} {
+	// a git history so that `grog changes` can be driven: one commit, then an edited input
+	gitOK := true
+	for _, m := range []*grog.Machine{lad, chn} {
+		for _, ga := range [][]string{{"init", "-q"}, {"add", "-A"}, {"-c", "user.name=v", "-c", "user.email=v@v", "commit", "-q", "-m", "base"}} {
+			c := exec.Command("git", ga...)
+			c.Dir = m.Workspace
+			c.Env = append(os.Environ(), "HOME="+m.Home, "GIT_CONFIG_NOSYSTEM=1")
+			if err := c.Run(); err != nil {
+				gitOK = false
+			}
+		}
+		_ = os.WriteFile(filepath.Join(m.Workspace, "in.txt"), []byte("edited"), 0644)
+	}
+	cmds := [][]string{{"check"}, {"deps", "-t", "//:n0059"}, {"rdeps", "-t", "//:n0000"}, {"build"}, {"list", "//..."}}
+	if gitOK {
+		cmds = append(cmds, []string{"changes", "--since=HEAD", "--dependents=transitive"}, []string{"changes", "--since=HEAD", "--dependents=none"})
+	} else {
+		run.Count("git_unavailable(changes not driven)", 1)
+	}
+	for _, args := range cmds {
 		rc := chn.Run(args, grog.RunOpts{Build: "c", Timeout: 60 * time.Second})
 		rl := lad.Run(args, grog.RunOpts{Build: "l", Timeout: 60 * time.Second})
 		run.Eval(2)
